@@ -225,6 +225,11 @@ class LifecycleMonitor(Monitor):
         if getattr(pkg, "_retry_count", 0) > seen.get(id(pkg), 0):
             seen[id(pkg)] = pkg._retry_count
             return  # the package was re-submitted (retry): it is still outstanding
+        if pkg.package_type.name == "PLACE" and getattr(pkg, "_retry_count", 0) >= getattr(pkg, "_max_retries", 3):
+            # reach probe for the round-21 clause: the last attempt of a PLACE package has returned (all retries used) while
+            # an order of it, acknowledged by the stream meanwhile, has its own modification outstanding
+            if any(o.status.name in ("CANCELLING", "UPDATING", "REPLACING") and self.inflight_mod.get(o._vid) for o in pkg._orders):
+                self.res.probes["c03.place_retries_exhausted_while_an_order_of_the_package_has_a_modification_outstanding"] += 1
         for o in pkg._orders:
             self.inflight[o._vid] = max(0, self.inflight.get(o._vid, 0) - 1)
             if (id(pkg), o._vid) in self.answered_early:
